@@ -434,3 +434,15 @@ def assume_unsafe_contract(I, st, key, args):
             T.refine(args[0].term, VS(0, NEWTYPE_MAX[p]), st.cons)
     if name == 'from_bytes_unchecked' and args and isinstance(args[0], Ag) and args[0].fields and isinstance(args[0].fields[0], Sc):
         T.refine(args[0].fields[0].term, VS(0x80, 0xFF), st.cons)
+
+
+def ctor_obs_verdict(path, fields, extra):
+    """verdict of one construction-site observation (as recorded by Interp.note_ctor): (True | False | None, text)"""
+    if path in NEWTYPE_MAX:
+        v = fields[0] if fields else None
+        if v is None:
+            return (None, 'operand is not a scalar with a known value set')
+        return (v.subset(VS(0, NEWTYPE_MAX[path])), 'x in %r' % (v,))
+    if extra is None:
+        return (True, 'untracked')
+    return extra
